@@ -16,6 +16,9 @@ if os.path.exists(os.path.join(MD, "not_applicable.txt")):
         if "|" in line:
             k, v = line.split("|", 1)
             NA[k.strip()] = v.strip()
+import subprocess
+# hook commits in /repo = commits whose subject starts with "verif hook:"
+HOOK_COMMITS = [l.split(" ")[0] for l in subprocess.run(["git", "-C", "/repo", "log", "--format=%h %s"], capture_output=True, text=True).stdout.splitlines() if " verif hook:" in " " + l]
 NA_REASON = "not yet built in this session: the Lean model and its correspondence for this property are still under construction (see DESIGN.md §10 build order); no check is claimed until both exist"
 
 man = {
@@ -25,7 +28,7 @@ man = {
    "guard": "--cfg mimium_verif",
    "enable": "RUSTFLAGS='--cfg mimium_verif' cargo build --offline (the harness crate /verif/harness builds /repo's crates through path dependencies with this flag)",
    "baseline_off_cmd": "cd /repo && cargo test --workspace --no-fail-fast --offline",
-   "source_commits": [],
+   "source_commits": HOOK_COMMITS,
    "add_only": True,
  },
  "engines": [
